@@ -36,15 +36,38 @@ def gen_cases(rng, tier):
         else:
             ws = [rng.choice([0, 1, 1000, 65535, 65536, 10 ** 6, 2 ** 31 - 1, 2 ** 31, 2 ** 32 - 1]) for _ in range(k)]
         vecs.append(ws)
-    return [{"weights": ws, "n": n} for ws in vecs]
+    cases = [{"weights": ws, "n": n} for ws in vecs]
+    # a route may list one cluster several times (the shares of a name add up), and the other consumers of a client suite
+    # (retry, circuit breaker) have been handed the same route table before the calls are routed
+    for ws, names in (([10, 80, 10], [0, 0, 1]), ([0, 5, 0], [0, 0, 1]), ([1, 2, 3], [0, 1, 0]), ([3, 3, 3, 1], [0, 1, 1, 2]), ([7, 7], [0, 0])):
+        cases.append({"weights": ws, "n": n, "names": names, "suites": True})
+    for c in cases[:len(vecs)]:
+        if rng.random() < 0.4:
+            c["suites"] = True
+        if len(c["weights"]) >= 3 and rng.random() < 0.3:
+            k = len(c["weights"])
+            c["names"] = [rng.randrange(max(1, k - 1)) for _ in range(k)]
+    return cases
+
+
+def merged(c):
+    """weights per distinct name, in the order of first occurrence (what the shares of the NAMES are)"""
+    names = c.get("names") or list(range(len(c["weights"])))
+    order, tot = [], {}
+    for w, nm in zip(c["weights"], names):
+        if nm not in tot:
+            order.append(nm)
+            tot[nm] = 0
+        tot[nm] += w
+    return [tot[nm] for nm in order]
 
 
 def to_harness(c):
-    return {"weights": c["weights"], "n": c["n"]}
+    return {"weights": c["weights"], "n": c["n"], "names": c.get("names") or [], "suites": bool(c.get("suites"))}
 
 
 def to_gallina(c, o):
-    return "Build_pick_case %s %s %s %s %s %s" % (glist(c["weights"], gN), gN(c["n"]), glist(o["counts"], gN),
+    return "Build_pick_case %s %s %s %s %s %s" % (glist(merged(c), gN), gN(c["n"]), glist(o["counts"], gN),
                                                    gN(o["errs"]), gN(o["panics"]), gN(o["other"]))
 
 
